@@ -710,7 +710,8 @@ def seeds(ctx, n, salt=0):
 
 
 RULE_PROTOCOL = ("(a) JadeImpl explored by TLC on small scenarios, every interleaving of login/compute-node submitter rounds, "
-                 "batch starts, job exits and recovery rounds; its behaviours replayed into the real code (conformance); "
+                 "batch starts, job exits and recovery rounds; its behaviours replayed into the real code (conformance); TLC "
+                 "simulation of JadeImpl on random 4-5-job scenarios, replayed likewise; "
                  "(b) seeded random DAGs (listing order independent of dependency order), random submitter parameters (batch "
                  "size / time-based batching with estimates / max nodes / try-add-blocked / groups), random interleavings, "
                  "documented recovery rounds; (c) code -> model: recorded runs followed by JadeImpl; (d) single-delay sweep of base "
@@ -796,6 +797,12 @@ def protocol_suite(ctx, n_quick=400, n_thorough=4000, gen_kw=None, salt=0):
     q = ctx.tier == "quick"
     fam = families.protocol_quick() if q else families.protocol_thorough()
     ctx.impl_model("JadeImpl protocol", fam, maxb=4 if not q else 3, maxuser=3 if q else 4, max_replay=300 if q else 2000)
+    # beyond the exhaustive scope: random 4-5-job scenarios (groups, time-based batching, flags, failures), TLC in simulation
+    # mode (random behaviours of the same specification, the monitor evaluated along each), replayed into the code
+    srng = random.Random(ctx.seed * 1000 + salt)
+    sscns = [scenario.gen(srng, n_min=4, n_max=5, groups_max=2, allow_time=True) for _ in range(3 if q else 12)]
+    ctx.impl_model("JadeImpl simulation on random 4-5-job scenarios", sscns, maxb=5, maxuser=4,
+                   simulate=f"num={120 if q else 4000}", max_replay=80 if q else 2000, timeout=1500)
     kw = dict(n_min=2, n_max=6 if q else 9, groups_max=2, eager=0.04)
     kw.update(gen_kw or {})
     tasks = [("random_hpc", (s, kw)) for s in seeds(ctx, n_quick if q else n_thorough, salt)]
